@@ -28,6 +28,20 @@ chk("C14", "proof",
     COMMON_NOTE + "Partial: agreement, integrity, delivery at quiescence are tested, not proved; real time-outs, Sync and OS buffering are not modelled; digests modelled as payloads.",
     "Coq invariants over all schedules + extracted-model correspondence on in-memory transport", "DESIGN.md §5 C14, docs/C14.md")
 
+chk("C19", "proof",
+    "Coq proof of round-trip / shortest-form / consumption theorems for Radix-64 (all octet strings; alphabet proven equal to the tables regenerated from the header), CRC-24 checksum line, "
+    "packet tags and all body-length forms incl. partial lengths, packet framing, MPIs and all 256 S2K counts, about a reference model written from the RFC 4880 text; tied to the code by "
+    "octet-for-octet correspondence on boundary-aimed inputs (31 record kinds); implementation-level re-decoding oracle for every Packet*Encode and GnuPG (--list-packets, --dearmor) as additional judges.",
+    COMMON_NOTE + "Armor round trip, ECC/v5/secret-key packet layouts: testing level (oracle + correspondence), not proof; hash/S2K primitives are oracles.",
+    "Coq reference model from the RFC + extraction-based correspondence + gpg judge", "DESIGN.md §5 C19, docs/C19.md")
+chk("C20", "proof",
+    "Coq proof that the hashed octets determine trailer and signed object (v4/v5 signature hash-input injectivity), of the exact validity predicate (expiry, older than key, future-dated, weak hash), "
+    "of the release-only-under-integrity structure of message decryption (MDC or AEAD required, unprotected refused) and of chunk/final-tag associated-data injectivity; the model is tied to the code by "
+    "correspondence on the observed hash inputs (gcry_md_hash_buffer interposition), CheckValidity verdicts and AEAD nonces (gcry_cipher_setiv interposition); exhaustive single-octet tamper oracle on the "
+    "implementation for signatures (RSA/DSA/ECDSA/EdDSA x 3 hashes x binary/text) and for MDC/AEAD encryption (every octet flipped, chunks reordered/dropped/duplicated, final tag dropped).",
+    COMMON_NOTE + "Cryptographic primitives idealised (Section variables); sign/verify and encrypt/decrypt round trips are tested on the implementation, not proved; AEAD nonce reuse is a recorded known finding.",
+    "Coq framing/decision model + correspondence on intercepted hash inputs and nonces + byte-flip oracle", "DESIGN.md §5 C20, docs/C20.md")
+
 NOT_YET = {}
 ALL = ["C%02d" % i for i in range(1, 21)]
 for p in ALL:
